@@ -307,8 +307,7 @@ Proof.
     rewrite (pres_state_fold (fun st' n => fst (remove_label st' n l))); [reflexivity|]. intros. apply pres_remove_label.
   - destruct (sess st s); reflexivity.
   - destruct (sess st s); reflexivity.
-  - pose proof (pres_delete_node_at_epoch st n (st_epoch st)) as H.
-    destruct (delete_node_at_epoch st n (st_epoch st)) as [st1 b]. cbn [fst] in *. rewrite (p_state _ _ H). reflexivity.
+  - exact (f_equal (fun f => f t) (p_state _ _ (pres_db_delete_node st n))).
   - reflexivity.
   - reflexivity.
   - pose proof (pres_add_label st n l) as H.
@@ -414,9 +413,7 @@ Proof.
   - destruct (ctx st s) as [e0 t0]. cbn [fst].
     pose proof (fold_pres (fun st' n => fst (remove_label st' n l)) (fun st' n => pres_remove_label st' n l) (matched st m id e0 t0) st) as H.
     rewrite (p_rdf _ _ H), (p_buf _ _ H). split; reflexivity.
-  - pose proof (pres_delete_node_at_epoch st n (st_epoch st)) as H.
-    destruct (delete_node_at_epoch st n (st_epoch st)) as [st1 b]. cbn [fst] in *.
-    rewrite (p_rdf _ _ H), (p_buf _ _ H). split; reflexivity.
+  - split; [exact (p_rdf _ _ (pres_db_delete_node st n))|exact (p_buf _ _ (pres_db_delete_node st n))].
   - split; reflexivity.
   - split; reflexivity.
   - pose proof (pres_add_label st n l) as H.
